@@ -684,6 +684,66 @@ def gen_limits(out):
 EXTRA.append(gen_limits)
 
 
+def gen_lexer(out):
+    def tables():
+        from lesscpy.lib import css, dom
+        from lesscpy.lessc import lexer
+        return {'props': sorted(css.properties), 'elems': sorted(dom.elements), 'media_types': list(css.media_types),
+                'media_features': list(css.media_features), 'sig': sorted(lexer.LessLexer.significant_ws), 'literals': lexer.LessLexer.literals}
+    out.put('css_properties', 'list str', to_coq_strlist, lambda: tables()['props'])
+    out.put('dom_elements', 'list str', to_coq_strlist, lambda: tables()['elems'])
+    out.put('media_types', 'list str', to_coq_strlist, lambda: tables()['media_types'])
+    out.put('media_features', 'list str', to_coq_strlist, lambda: tables()['media_features'])
+    out.put('significant_ws', 'list str', to_coq_strlist, lambda: tables()['sig'])
+    out.put('lex_literals', 'str', coq_str, lambda: tables()['literals'])
+
+    def rule_order():
+        from lesscpy.lessc import lexer
+        L = lexer.LessLexer().lexer
+        res = []
+        for st in ['INITIAL', 'parn', 'iselector', 'mediaquery', 'import', 'istringquotes', 'istringapostrophe', 'escapequotes', 'escapeapostrophe']:
+            names = []
+            for (regex, fl) in L.lexstatere[st]:
+                for f in fl:
+                    if f and f[0] is not None:
+                        names.append(f[0].__name__)
+            res.append([st, names])
+        return res
+    out.put('lex_rule_order', 'list (str * list str)', lambda v: coq_list(['(%s, %s)' % (coq_str(st), to_coq_strlist(n)) for st, n in v]), rule_order)
+
+    def rule_regex():
+        from lesscpy.lessc import lexer
+        import inspect as _i
+        lx = lexer.LessLexer
+        res = []
+        for name in sorted(dir(lx)):
+            if name.startswith('t_') and name != 't_error' and callable(getattr(lx, name)):
+                f = getattr(lx, name)
+                rx = getattr(f, 'regex', None) or f.__doc__
+                if name in ('t_mediaquery_css_media_type', 't_import_css_media_type'):
+                    rx = '<media_types>'
+                if name == 't_mediaquery_css_media_feature':
+                    rx = '<media_features>'
+                res.append([name, rx])
+        return res
+    out.put('lex_rule_regex', 'list (str * str)', lambda v: coq_list(['(%s, %s)' % (coq_str(a), coq_str(b)) for a, b in v]), rule_regex)
+
+    def reserved_tokens():
+        from lesscpy.lib import reserved
+        return sorted([k, v] for k, v in reserved.tokens.items())
+    out.put('reserved_tokens', 'list (str * str)', lambda v: coq_list(['(%s, %s)' % (coq_str(a), coq_str(b)) for a, b in v]), reserved_tokens)
+
+    def number_units():
+        from lesscpy.lessc import lexer
+        rx = lexer.LessLexer.t_css_number.__doc__
+        m = re.search(r'\)\((.*)\)\?$', rx)
+        return m.group(1).split('|')
+    out.put('number_unit_alternatives', 'list str', to_coq_strlist, number_units)
+
+
+EXTRA.append(gen_lexer)
+
+
 def render(out):
     """-> {relative file name: text}: one Gen/P<Group>.v per group plus Gen/Params.v re-exporting all"""
     head = ['(* GENERATED by harness/gen_params.py from %s — do not edit, do not commit. *)' % REPO,
